@@ -207,10 +207,10 @@ def inline_locals(fn: ast.FunctionDef, keep: set[str] | None = None) -> ast.Func
                         tgt, val = st.target.id, st.value
                     if tgt is None or tgt in keep or tgt in params or counts.get(tgt, 0) != 1 or tgt.startswith("__"):
                         continue
-                    if not is_pure_expr(val) or _is_container_ctor(val):
+                    if not is_pure_expr(val) or _is_mutated(fn, tgt):
                         continue
-                    if _is_mutated(fn, tgt):
-                        continue
+                    if _is_container_ctor(val) and _is_empty_container(val):
+                        continue  # an accumulator, not an alias
                     # every use must be in the statements following the definition inside this block
                     uses = [n for n in ast.walk(fn) if isinstance(n, ast.Name) and n.id == tgt and isinstance(n.ctx, ast.Load)]
                     rest = block[i + 1:]
@@ -260,6 +260,16 @@ def _is_mutated(fn: ast.AST, name: str) -> bool:
             return True
         if isinstance(n, ast.Call) and dotted(n.func) in ("object.__setattr__", "setattr") and n.args and isinstance(n.args[0], ast.Name) and n.args[0].id == name:
             return True
+    return False
+
+
+def _is_empty_container(val: ast.expr) -> bool:
+    if isinstance(val, (ast.List, ast.Set)) and not val.elts:
+        return True
+    if isinstance(val, ast.Dict) and not val.keys:
+        return True
+    if isinstance(val, ast.Call) and not val.args and not val.keywords:
+        return True
     return False
 
 
@@ -532,11 +542,66 @@ class HelperInliner:
             T().visit(st)
 
 
+def lower(fn: ast.FunctionDef, tuples: bool = True, ifexp: bool = True) -> ast.FunctionDef:
+    """Statement-level canonicalisation:
+    * ``a, b = x, y`` (no cross dependency)            ->  ``a = x`` ; ``b = y``
+    * ``x = A if c else B`` / ``return A if c else B`` / ``f(A if c else B)`` as a statement  ->  if c: ... else: ...
+    """
+
+    def rewrite(block: list[ast.stmt]) -> None:
+        i = 0
+        while i < len(block):
+            st = block[i]
+            new: list[ast.stmt] | None = None
+            if not tuples and isinstance(st, ast.Assign) and isinstance(st.targets[0], ast.Tuple) and isinstance(st.value, ast.Tuple):
+                pass
+            elif not ifexp and isinstance(getattr(st, "value", None), ast.IfExp):
+                pass
+            elif not ifexp and isinstance(st, ast.Expr) and isinstance(st.value, ast.Call) and len(st.value.args) == 1 and isinstance(st.value.args[0], ast.IfExp):
+                pass
+            elif isinstance(st, ast.Assign) and len(st.targets) == 1 and isinstance(st.targets[0], ast.Tuple) and isinstance(st.value, ast.Tuple) \
+                    and len(st.targets[0].elts) == len(st.value.elts) and all(isinstance(t, ast.Name) for t in st.targets[0].elts):
+                names = {t.id for t in st.targets[0].elts}  # type: ignore[attr-defined]
+                reads = {n.id for v in st.value.elts for n in ast.walk(v) if isinstance(n, ast.Name)}
+                if not (names & reads):
+                    new = [ast.copy_location(ast.Assign(targets=[t], value=v), st) for t, v in zip(st.targets[0].elts, st.value.elts)]
+            elif isinstance(st, (ast.Assign, ast.AnnAssign)) and isinstance(st.value, ast.IfExp):
+                def mk(v: ast.expr) -> ast.stmt:
+                    c = copy.copy(st)
+                    c.value = v
+                    return c
+                new = [ast.copy_location(ast.If(test=st.value.test, body=[mk(st.value.body)], orelse=[mk(st.value.orelse)]), st)]
+            elif isinstance(st, ast.Return) and isinstance(st.value, ast.IfExp):
+                new = [ast.copy_location(ast.If(test=st.value.test, body=[ast.copy_location(ast.Return(value=st.value.body), st)],
+                                                orelse=[ast.copy_location(ast.Return(value=st.value.orelse), st)]), st)]
+            elif isinstance(st, ast.Expr) and isinstance(st.value, ast.Call) and len(st.value.args) == 1 and not st.value.keywords \
+                    and isinstance(st.value.args[0], ast.IfExp):
+                ife = st.value.args[0]
+
+                def mkc(v: ast.expr) -> ast.stmt:
+                    c = copy.deepcopy(st)
+                    c.value.args = [v]  # type: ignore[attr-defined]
+                    return c
+                new = [ast.copy_location(ast.If(test=ife.test, body=[mkc(ife.body)], orelse=[mkc(ife.orelse)]), st)]
+            if new is not None:
+                block[i:i + 1] = new
+                continue
+            for sub in _blocks(st):
+                rewrite(sub)
+            i += 1
+
+    rewrite(fn.body)
+    ast.fix_missing_locations(fn)
+    return fn
+
+
 def normalize(fn: ast.FunctionDef, cls: ast.ClassDef | None, qual: str, inliner: HelperInliner | None, keep: set[str] | None = None) -> ast.FunctionDef:
     new = copy.deepcopy(fn)
     new = _StripCasts().visit(new)
     if inliner is not None:
         new = inliner.inline(new, cls, qual)
+    new = lower(new, tuples=True, ifexp=False)
     new = inline_locals(new, keep)
+    new = lower(new, tuples=True, ifexp=True)
     ast.fix_missing_locations(new)
     return new
